@@ -118,18 +118,18 @@ func (dss *dataStoreSet) getDb(index int, create bool) (ds *dataStore, valid boo
 	return
 }
 
-func (dss *dataStoreSet) flushDb(index int) {
+// provides every database that currently exists, in index order
+func (dss *dataStoreSet) allDbs() []*dataStore {
 	dss.mu.Lock()
 	defer dss.mu.Unlock()
 
-	delete(dss.dbs, index)
-}
-
-func (dss *dataStoreSet) flushAll() {
-	dss.mu.Lock()
-	defer dss.mu.Unlock()
-
-	dss.dbs = map[int]*dataStore{}
+	list := make([]*dataStore, 0, len(dss.dbs))
+	for index := 0; index < 16; index++ {
+		if ds, exists := dss.dbs[index]; exists {
+			list = append(list, ds)
+		}
+	}
+	return list
 }
 
 func (dss *dataStoreSet) getUser(userName string) (dsu *dataStoreUser, exists bool) {
